@@ -21,3 +21,5 @@ open RV.C09
 #print axioms time_readback_wide
 #print axioms time_roundtrip_witness
 #print axioms duration_py_to_lit
+#print axioms retype_is_lex
+#print axioms copy_same
